@@ -33,6 +33,8 @@ func runC01(w *World) *Result {
 	DropRule(w, r, "R-C01-drop")
 	r.Rule("R-C01-sign", "a minus directly after an operand is the binary operator: the lexer's previous-token set holds every token type that can end an integer operand", 2)
 	SignRule(w, r, "R-C01-sign")
+	r.Rule("R-C01-chain", "else-if and else continue the open if construct (one compound command: exactly one branch runs)", 2)
+	ChainRule(w, bash, r, "R-C01-chain")
 	r.Rule("R-C01-numcmp", "Bash test commands order numbers with -lt/-le/-gt/-ge, never with < or > (text order)", 3)
 	BashTestOrderRule(w, bash, r, "R-C01-numcmp", func(l *Line) bool { return l.Em.Helper == "" })
 	ExitRule(w, bash, batch, r, "R-C01-exit")
@@ -68,6 +70,8 @@ func runC05(w *World) *Result {
 	SiblingCells(w, bash, batch, r, "R-C05-optable")
 	AllocRule(w, batch, r, "R-C05-alloc")
 	PopRule(w, "batch", r, "R-C05-alloc")
+	r.Rule("R-C05-chain", "Batch: else-if and else continue the open if block", 2)
+	ChainRule(w, batch, r, "R-C05-chain")
 	r.Rule("R-C05-lenmono", "Batch: element assignment never shortens a slice (the stored length index+1 is written only where index >= old length)", 1)
 	BatchLenMonotoneRule(w, batch, r, "R-C05-lenmono")
 	r.Rule("R-C05-blockexit", "Batch: a line closing a parenthesised block that held user statements is never reached by falling through: the line before it is an unconditional goto to a label kept on the construct's stack", 3)
